@@ -144,7 +144,8 @@ Lemma world_refines_regs w sp :
 Proof.
   unfold world_refines, refine_failures. intros H.
   destruct (flat_map _ (wclasses w) ++ _) eqn:E; try discriminate.
-  apply app_eq_nil in E. destruct E as [_ E]. apply app_eq_nil in E. destruct E as [E1 E2].
+  apply app_eq_nil in E. destruct E as [_ E]. apply app_eq_nil in E. destruct E as [E _].
+  apply app_eq_nil in E. destruct E as [E1 E2].
   unfold registry_failures in *.
   repeat match goal with
          | H : _ ++ _ = [] |- _ => apply app_eq_nil in H; destruct H
@@ -168,4 +169,15 @@ Proof.
   destruct H as (A & B & C & D & E & F & G & I).
   apply pairs_eqb_eq in A, B, C, D, E, F, G, I.
   destruct v; simpl; [destruct (wreg20 w), (wreg20 sp) | destruct (wreg21 w), (wreg21 sp)]; simpl in *; congruence.
+Qed.
+
+Lemma world_refines_names w sp v : world_refines w sp = true -> reg_names_ok (reg_of sp v) = true.
+Proof.
+  unfold world_refines, refine_failures. intros H.
+  destruct (flat_map _ (wclasses w) ++ _) eqn:E; try discriminate.
+  apply app_eq_nil in E. destruct E as [_ E]. apply app_eq_nil in E. destruct E as [_ E].
+  unfold spec_names_failures in E. apply app_eq_nil in E. destruct E as [E1 E2].
+  destruct v; simpl.
+  - destruct (reg_names_ok (wreg20 sp)); auto; discriminate.
+  - destruct (reg_names_ok (wreg21 sp)); auto; discriminate.
 Qed.
